@@ -334,24 +334,28 @@ def build_metadata_output(compiler_data: CompilerData) -> dict:
             ret["venom_via_stack"] = pass_via_stack_list
             ret["venom_return_via_stack"] = returns_stack_count(func_t) > 0
 
-        keep_keys = {
+        # emit the fields in a fixed order: `vars(func_t)` lists attributes in
+        # the order they were first set on the object, which for functions of
+        # a builtin module (cached across compilations) depends on what was
+        # compiled earlier in the process
+        keep_keys = (
             "name",
-            "return_type",
             "positional_args",
             "keyword_args",
+            "return_type",
+            "visibility",
+            "mutability",
+            "nonreentrant_key",
+            "_ir_identifier",
             "default_values",
             "frame_info",
-            "mutability",
-            "visibility",
-            "_ir_identifier",
-            "nonreentrant_key",
             "module_path",
             "source_id",
             "function_id",
             "venom_via_stack",
             "venom_return_via_stack",
-        }
-        ret = {k: v for k, v in ret.items() if k in keep_keys}
+        )
+        ret = {k: ret[k] for k in keep_keys if k in ret}
         return ret
 
     return {"function_info": {name: _to_dict(sig) for (name, sig) in sigs.items()}}
